@@ -73,3 +73,39 @@ def lall(o, fn):
         return t.and_(*[fn(I(j), x.t) for j, x in enumerate(o.items)])
     j = t.var('j!', t.INT)
     return forall_range(j, t.ZERO, o.len, fn(j, t.select(o.arr, j)), [[t.select(o.arr, j)]])
+
+
+# ------------------------------------------------------------------------------------------------ congruence lemmas
+# a specification function applied to two array regions that agree pointwise gives the same value (needed whenever bytes
+# are copied: written to a stream, re-based into a substream, concatenated)
+from pyvc.lemma import Lemma
+from pyvc import structmodel  # noqa (le_val)
+
+
+def _agree(v):
+    # stated over the absolute index of a so that the pattern (select a i) fires for every index term
+    i = t.var('ci!', t.INT)
+    return forall_range(i, v['alo'], t.add(v['alo'], v['n']),
+                        t.eq(t.select(v['a'], i), t.select(v['b'], t.add(t.sub(i, v['alo']), v['blo']))), [[t.select(v['a'], i)]])
+
+
+def cong_stmt(fn):
+    def stmt(v):
+        return t.implies(t.and_(t.ge(v['n'], t.ZERO), _agree(v)),
+                         t.eq(t.app(fn, t.INT, v['a'], v['alo'], t.add(v['alo'], v['n'])), t.app(fn, t.INT, v['b'], v['blo'], t.add(v['blo'], v['n']))))
+    return stmt
+
+
+CONG_VARS = [('a', t.ARR), ('b', t.ARR), ('alo', t.INT), ('blo', t.INT), ('n', t.INT)]
+CONG = {}
+for _fn, _left in (('be_val', False), ('le_val', True), ('bits_val', False), ('val7', True)):
+    if _left:
+        _ih = lambda v: [{'a': v['a'], 'b': v['b'], 'alo': t.add(v['alo'], t.ONE), 'blo': t.add(v['blo'], t.ONE)}]
+    else:
+        _ih = lambda v: [{'a': v['a'], 'b': v['b'], 'alo': v['alo'], 'blo': v['blo']}]
+    CONG[_fn] = Lemma('cong_' + _fn, CONG_VARS, cong_stmt(_fn), induct=('n', 0), ih_instances=_ih,
+                      tags=('C03', 'C01', 'C02', 'C10', 'C12', 'C05'))
+
+
+def cong_instance(fn, a, alo, b, blo, n):
+    return cong_stmt(fn)({'a': a, 'alo': alo, 'b': b, 'blo': blo, 'n': n})
